@@ -198,6 +198,13 @@ func FlagDiff(ws *sut.Workspace, bin string, opts sut.LabOpts, cfg Config, flags
 		return res
 	}
 	res.Stats.Merge(r2.Stats)
+	compareFlagRuns(res, r1, r2, flags)
+	return res
+}
+
+// compareFlagRuns: every connection must receive under flags what it
+// received without them minus the classes the flags name.
+func compareFlagRuns(res *DiffResult, r1, r2 *Runner, flags []string) {
 	suppressed := map[string]bool{}
 	for _, f := range flags {
 		if t, ok := FlagClass[f]; ok {
@@ -223,7 +230,7 @@ func FlagDiff(ws *sut.Workspace, bin string, opts sut.LabOpts, cfg Config, flags
 			if strings.Join(want, "|") != strings.Join(got, "|") {
 				res.Fail = diffFail([]string{"C17"}, "flags/streams-differ",
 					fmt.Sprintf("flags %v, step %d (%s): connection %d should receive %s (flag-free run minus the disabled classes) but received %s", flags, st, stepDesc(r1, st), conn, decodeAll(want), decodeAll(got)), r1)
-				return res
+				return
 			}
 		}
 	}
@@ -232,9 +239,8 @@ func FlagDiff(ws *sut.Workspace, bin string, opts sut.LabOpts, cfg Config, flags
 			if _, ok := r1.Rec[conn][st]; !ok && len(w2) > 0 {
 				res.Fail = diffFail([]string{"C17"}, "flags/streams-differ",
 					fmt.Sprintf("flags %v, step %d: connection %d received %s, nothing in the flag-free run", flags, st, conn, decodeAll(w2)), r1)
-				return res
+				return
 			}
 		}
 	}
-	return res
 }
